@@ -23,6 +23,9 @@ def judge(run, trace_path, label):
             i -= 1
         hist = events[i:b["l"]]
         key = "coll:%s:%s:%s" % (b["kind"], b["op"], "+".join(b["why"]))
+        if b["op"] in ("First", "IRIs", "Normalize", "ItemsMatch") and set(b["why"]) <= {"reply"}:
+            run.note(key, "reply of %s differs from Collections.tla" % b["op"])     # views of the list: specified, but not part of C13's statement
+            continue
         run.observe(key, "%s step rejected by Collections spec (%s) in %s" % (b["op"], ",".join(b["why"]), label),
                     dict(history=hist, event=ev))
     return len(events)
